@@ -24,8 +24,17 @@ BAND_REL = 1e-9
 BAND_ABS = 1e-11
 
 
-def band(length):
-    return max(BAND_REL * float(length), BAND_ABS)
+# single-precision band: coordinates delivered as float32 / int16 / uint16 arrays are converted to radians in float32
+# (np.deg2rad keeps the precision of its argument): 0.5 ulp(2 pi) = 2.4e-7 rad = 1.4e-5 deg per RA, so a separation
+# carries up to ~3e-5 deg of absolute error (measured 1.4e-6 deg at RA 10).  3e-3 deg is 100 x that.
+BAND32_REL = 1e-5
+BAND32_ABS = 3e-3
+PREC = {'double': (BAND_REL, BAND_ABS), 'single': (BAND32_REL, BAND32_ABS)}
+
+
+def band(length, prec='double'):
+    rel, ab = PREC[prec]
+    return max(rel * float(length), ab)
 
 
 def unit(ra, dec):
@@ -74,9 +83,9 @@ def checked_sep_matrix(ra1, dec1, ra2, dec2):
     return S
 
 
-def classify(S, length):
+def classify(S, length, prec='double'):
     """(sure, maybe): boolean matrices, S < length-band and S <= length+band."""
-    w = LD(band(length))
+    w = LD(band(length, prec))
     L = LD(length)
     return S < L - w, S <= L + w
 
@@ -110,10 +119,11 @@ def components(adj):
     return out
 
 
-def fof(ra, dec, length):
+def fof(ra, dec, length, prec='double', S=None):
     """(labels_sure, labels_maybe, n_band_pairs, S): both readings of the ambiguity band."""
-    S = checked_sep_matrix(ra, dec, ra, dec)
-    sure, maybe = classify(S, length)
+    if S is None:
+        S = checked_sep_matrix(ra, dec, ra, dec)
+    sure, maybe = classify(S, length, prec)
     # spheregroup links with sep <= L: 'sure' = S < L - band, 'maybe' = S <= L + band
     l1 = components(sure)
     nband = int((np.triu(maybe & ~sure, 1)).sum())
@@ -210,3 +220,33 @@ class Geo:
     def populated_slices(self):
         return [i for i in range(self.nDec)
                 if self.decBounds[i + 1] > self.decMin and self.decBounds[i] < self.decMax]
+
+
+# ------------------------------------------------------------------ argument flavours (dtype / layout family)
+# name -> how a list of whole-degree values is handed to the function under test.  'single' marks the flavours whose
+# degree->radian conversion happens in float32 inside numpy (float32, int16, uint16).
+FLAVOURS = {
+    'f8': 'double', 'i8': 'double', 'i4': 'double', '>f8': 'double', '>i4': 'double', 'u4': 'double',
+    'strided': 'double', 'reversed': 'double', 'readonly': 'double', 'strided_i8': 'double',
+    'f4': 'single', '>f4': 'single', 'i2': 'single', 'u2': 'single', 'strided_f4': 'single',
+}
+UNSIGNED = ('u4', 'u2')
+
+
+def make_arg(values, flavour):
+    """(argument array, buffer owner) for a list of numbers; the owner's bytes are compared before/after the call."""
+    v = np.array(values, dtype='f8')
+    if flavour.startswith('strided'):
+        dt = {'strided': 'f8', 'strided_i8': 'i8', 'strided_f4': 'f4'}[flavour]
+        big = np.full(2 * v.size + 1, 777, dtype=dt)
+        big[1::2] = v.astype(dt)
+        return big[1::2], big
+    if flavour == 'reversed':
+        base = v[::-1].copy()
+        return base[::-1], base
+    if flavour == 'readonly':
+        a = v.copy()
+        a.setflags(write=False)
+        return a, a
+    a = v.astype(flavour)
+    return a, a
